@@ -1,8 +1,160 @@
-import HypatiaModel.Persist
+import HypatiaProofs.Lemmas.Persist
+
+/-!
+# C09  Index state survives ZODB commit/reopen and is rolled back by abort   (partial)
+
+What Lean carries: the dirty-tracking abstraction.  `Low` is ZODB's treatment of persistent
+objects (only *registered* objects are written at commit/savepoint or invalidated at
+abort/rollback; unregistered ones keep their in-memory value until evicted), `BLog` is the
+specification ("the operations of committed transactions plus the surviving prefix of the
+running one").  The theorem: if every operation block notifies each cell it touches
+(`Disciplined` – in hypatia: every in-place change of a plain dict is followed by the
+re-assignment marked "not redundant: Persistency!"), then after *any* sequence of
+op / failing-op / commit / abort / savepoint / rollback / cacheMinimize / reopen commands memory
+and disk are exactly the states of the surviving operations.  That hypatia's operations are
+such blocks, pickling, FileStorage and the cache are outside Lean: checked by the runtime half.
+-/
 namespace Hyp.Persist
 
-/-- abort discards exactly the running transaction -/
-theorem c09_abort_effective (l : Log) : (l.step .abort).1.effective = l.committed := by
-  simp [Log.step, Log.effective]
+/-- all commands of a history are admissible in the state in which they are issued -/
+def ValidSeq (l : BLog) : List LCmd → Prop
+  | [] => True
+  | c :: cs => l.valid c ∧ ValidSeq (l.step c) cs
+
+def runLow (s : Low) (cmds : List LCmd) : Low := cmds.foldl Low.step s
+def runLog (l : BLog) (cmds : List LCmd) : BLog := cmds.foldl BLog.step l
+
+theorem ref_run (σ0 : Store) : ∀ (cmds : List LCmd) (s : Low) (l : BLog), Ref σ0 s l → ValidSeq l cmds →
+    Ref σ0 (runLow s cmds) (runLog l cmds)
+  | [], _, _, h, _ => h
+  | c :: cs, s, l, h, hv => ref_run σ0 cs _ _ (ref_step σ0 s l h c hv.1) hv.2
+
+/-- **Refinement** for every history: the cell store stays related to the transaction log. -/
+theorem c09_refinement (σ0 : Store) (cmds : List LCmd) (hv : ValidSeq {} cmds) :
+    Ref σ0 (runLow { disk := σ0, cur := σ0 } cmds) (runLog {} cmds) :=
+  ref_run σ0 cmds _ _ (ref_init σ0) hv
+
+theorem validSeq_snoc_evict : ∀ (cmds : List LCmd) (l : BLog), ValidSeq l (cmds ++ [.evict]) →
+    ValidSeq l cmds ∧ (runLog l cmds).poisoned = false
+  | [], l, h => ⟨trivial, h.1⟩
+  | x :: xs, l, h => by
+    obtain ⟨a, b⟩ := validSeq_snoc_evict xs (l.step x) h.2
+    exact ⟨⟨h.1, a⟩, b⟩
+
+/-- after a commit, closing and reopening with an empty cache shows exactly the committed operations,
+which are all operations that were not aborted / rolled back -/
+theorem c09_commit_reopen (σ0 : Store) (cmds : List LCmd) (hv : ValidSeq {} (cmds ++ [.commit, .reopen])) (c : Nat) :
+    let s := runLow { disk := σ0, cur := σ0 } (cmds ++ [.commit, .reopen])
+    let l := runLog {} (cmds ++ [.commit, .reopen])
+    s.cur c = absRun σ0 l.committed c ∧ l.pending = [] := by
+  have h := c09_refinement σ0 _ hv
+  have hp : (runLog {} (cmds ++ [.commit, .reopen])).poisoned = false := by
+    simp [runLog, List.foldl_append, BLog.step]
+  have hpend : (runLog {} (cmds ++ [.commit, .reopen])).pending = [] := by
+    simp [runLog, List.foldl_append, BLog.step]
+  refine ⟨?_, hpend⟩
+  have := h.mem hp c
+  rw [hpend, List.append_nil] at this
+  exact this
+
+/-- an aborted transaction – also one in which an operation raised part-way – leaves memory exactly as
+the committed operations left it -/
+theorem c09_abort_restores (σ0 : Store) (cmds : List LCmd) (hv : ValidSeq {} (cmds ++ [.abort])) (c : Nat) :
+    (runLow { disk := σ0, cur := σ0 } (cmds ++ [.abort])).cur c =
+      absRun σ0 (runLog {} cmds).committed c := by
+  have h := c09_refinement σ0 _ hv
+  have e : runLog {} (cmds ++ [.abort]) = { committed := (runLog {} cmds).committed } := by
+    simp [runLog, List.foldl_append, BLog.step]
+  have := h.mem (by rw [e]) c
+  rw [e] at this
+  simpa using this
+
+/-- a rolled-back savepoint leaves memory as it was when the savepoint was taken -/
+theorem c09_rollback_restores (σ0 : Store) (cmds : List LCmd) (j : Nat)
+    (hv : ValidSeq {} (cmds ++ [.rollback j])) (c : Nat) :
+    let l := runLog {} cmds
+    ∀ hj : j < l.saves.length,
+      (runLow { disk := σ0, cur := σ0 } (cmds ++ [.rollback j])).cur c =
+        absRun σ0 (l.committed ++ l.saves[j]) c := by
+  intro l hj
+  have h := c09_refinement σ0 _ hv
+  have hget : l.saves[j]? = some l.saves[j] := List.getElem?_eq_getElem hj
+  have e : runLog {} (cmds ++ [.rollback j]) =
+      { l with pending := l.saves[j], saves := l.saves.take (j + 1), poisoned := false } := by
+    simp only [runLog, List.foldl_append, List.foldl_cons, List.foldl_nil, BLog.step]
+    show (match l.saves[j]? with | some p => _ | none => _) = _
+    rw [hget]; rfl
+  have := h.mem (by rw [e]) c
+  rw [e] at this
+  exact this
+
+/-- cache eviction is invisible -/
+theorem c09_evict_invisible (σ0 : Store) (cmds : List LCmd) (hv : ValidSeq {} (cmds ++ [.evict])) (c : Nat) :
+    (runLow { disk := σ0, cur := σ0 } (cmds ++ [.evict])).cur c =
+      (runLow { disk := σ0, cur := σ0 } cmds).cur c := by
+  have hv' := validSeq_snoc_evict cmds {} hv
+  have h1 := c09_refinement σ0 _ hv
+  have h2 := c09_refinement σ0 _ hv'.1
+  have e : runLog {} (cmds ++ [.evict]) = runLog {} cmds := by
+    simp [runLog, List.foldl_append, BLog.step]
+  rw [h1.mem (by rw [e]; exact hv'.2) c, e, h2.mem hv'.2 c]
+
+/-- Why the discipline is needed: an in-place mutation that is never notified is lost by commit+reopen … -/
+theorem c09_undisciplined_lost :
+    let b : Block := [{ cell := 0, f := fun v => v + 1, notify := false }]
+    let s := runLow { disk := fun _ => 0, cur := fun _ => 0 } [.op b, .commit, .reopen]
+    s.cur 0 = 0 ∧ absRun (fun _ => 0) [b] 0 = 1 := by decide
+
+/-- … and survives an abort. -/
+theorem c09_undisciplined_survives_abort :
+    let b : Block := [{ cell := 0, f := fun v => v + 1, notify := false }]
+    let s := runLow { disk := fun _ => 0, cur := fun _ => 0 } [.op b, .abort]
+    s.cur 0 = 1 := by decide
+
+/-! ### hypatia's plain-container updates as blocks
+
+`_wordinfo` is an IOBTree whose values are plain dicts below `DICT_CUTOFF` (cell = the bucket that
+holds the dict) and IFBTrees above (cells of their own).  The three places that change a dict in
+place re-assign it into the bucket afterwards. -/
+
+/-- `_add_wordinfo` / `_mass_add_wordinfo` on a dict-valued entry: `doc2score[docid] = f` then
+`self._wordinfo[wid] = doc2score` -/
+def addWordinfoDict (bucket : Nat) (f : Val → Val) : Block :=
+  [{ cell := bucket, f := f, notify := false }, { cell := bucket, f := id, notify := true }]
+
+/-- `_del_wordinfo`: `del doc2score[docid]` then re-assignment (or `del self._wordinfo[wid]`) -/
+def delWordinfoDict (bucket : Nat) (f : Val → Val) : Block :=
+  [{ cell := bucket, f := f, notify := false }, { cell := bucket, f := id, notify := true }]
+
+/-- the same updates on an IFBTree-valued entry notify by themselves -/
+def addWordinfoTree (tree bucket : Nat) (f : Val → Val) : Block :=
+  [{ cell := tree, f := f, notify := true }, { cell := bucket, f := id, notify := true }]
+
+theorem c09_hypatia_blocks_disciplined (bucket tree : Nat) (f : Val → Val) :
+    Disciplined (addWordinfoDict bucket f) ∧ Disciplined (delWordinfoDict bucket f) ∧
+      Disciplined (addWordinfoTree tree bucket f) := by
+  refine ⟨?_, ?_, ?_⟩ <;> intro a ha <;>
+    simp only [addWordinfoDict, delWordinfoDict, addWordinfoTree, List.mem_cons, List.mem_nil_iff, or_false] at ha ⊢
+  · rcases ha with rfl | rfl <;> exact ⟨⟨bucket, id, true⟩, by simp, rfl, rfl⟩
+  · rcases ha with rfl | rfl <;> exact ⟨⟨bucket, id, true⟩, by simp, rfl, rfl⟩
+  · rcases ha with rfl | rfl
+    · exact ⟨⟨tree, f, true⟩, by simp, rfl, rfl⟩
+    · exact ⟨⟨bucket, id, true⟩, by simp, rfl, rfl⟩
+
+/-- blocks compose: a catalog operation is the concatenation of its indexes' blocks -/
+theorem c09_blocks_compose (a b : Block) (ha : Disciplined a) (hb : Disciplined b) : Disciplined (a ++ b) := by
+  intro x hx
+  rcases List.mem_append.mp hx with h | h
+  · obtain ⟨y, hy, e1, e2⟩ := ha x h; exact ⟨y, List.mem_append.mpr (Or.inl hy), e1, e2⟩
+  · obtain ⟨y, hy, e1, e2⟩ := hb x h; exact ⟨y, List.mem_append.mpr (Or.inr hy), e1, e2⟩
+
+/-! non-vacuity: a valid history with a failing operation, savepoint, rollback, commit, eviction -/
+example :
+    let b1 : Block := addWordinfoDict 0 (fun v => v + 5)
+    let b2 : Block := addWordinfoTree 1 0 (fun v => v * 2)
+    ValidSeq {} [.op b1, .savepoint, .op b2, .failop b1, .rollback 0, .op b2, .commit, .evict, .reopen] := by
+  have d1 := (c09_hypatia_blocks_disciplined 0 1 (fun v => v + 5)).1
+  have d2 := (c09_hypatia_blocks_disciplined 0 1 (fun v => v * 2)).2.2
+  exact ⟨⟨d1, rfl⟩, rfl, ⟨d2, rfl⟩, d1, (by show 0 < 1; omega), ⟨d2, rfl⟩, rfl, rfl, trivial, trivial⟩
 
 end Hyp.Persist
